@@ -489,3 +489,81 @@ Proof.
   simpl. destruct fm; [|reflexivity]. apply flat_map_ext. intro t.
   destruct (derive_sibling e t); [rewrite E2|]; reflexivity.
 Qed.
+
+(* ---------- which sibling entries apply (fixes/D81): those of the rule explain names, of no other ---------- *)
+Lemma sibling_one_rule : forall files e i s fm v,
+  In v (sibling_one files e i s fm) -> v_rule v = Some (RRule i) /\ v_path v = e_path e.
+Proof.
+  intros files e i s fm v H. destruct s as [me ts w|pats w]; cbn [sibling_one] in H.
+  - destruct fm; [|contradiction]. apply in_flat_map in H. destruct H as [t [_ Hv]].
+    destruct (derive_sibling e t) as [exp|]; [|contradiction].
+    destruct (in_files files exp); [contradiction|]. destruct Hv as [<-|[]]. split; reflexivity.
+  - destruct (flat_map _ pats) as [|s0 rest]; [contradiction|].
+    destruct (group_missing files (e_parent e) pats _) as [|m ms]; [contradiction|].
+    destruct H as [<-|[]]. split; reflexivity.
+Qed.
+
+Lemma sibling_rule_rule : forall files e i sibs fms v,
+  In v (sibling_rule files e i sibs fms) -> v_rule v = Some (RRule i) /\ v_path v = e_path e.
+Proof.
+  intros files e i sibs. induction sibs as [|s r IH]; intros fms v H; cbn [sibling_rule] in H.
+  - contradiction.
+  - apply in_app_or in H. destruct H as [H|H]. eapply sibling_one_rule; exact H. eapply IH; exact H.
+Qed.
+
+Lemma sibling_rules_rule : forall files e rs cols k v,
+  In v (sibling_rules files e rs cols k) -> v_rule v = Some (RRule k) /\ v_path v = e_path e.
+Proof.
+  intros files e rs. induction rs as [|[i r] rs IH]; intros cols k v H; cbn [sibling_rules] in H.
+  - contradiction.
+  - apply in_app_or in H. destruct H as [H|H].
+    + destruct (Z.eqb i k) eqn:E; [|contradiction]. apply Z.eqb_eq in E. subst i.
+      eapply sibling_rule_rule; exact H.
+    + eapply IH; exact H.
+Qed.
+
+(* every sibling report of a file names the rule explain names for the file's directory *)
+Lemma sibling_rule_is_explains : forall cfg files e v,
+  In v (sibling_entry cfg files e) ->
+  exists i, v_rule v = Some (RRule i) /\ ex_matched (explain cfg (e_plim e)) = Some i /\ v_path v = e_path e.
+Proof.
+  intros cfg files e v H. unfold sibling_entry in H. cbn [explain ex_matched].
+  rewrite explain_index_last_match.
+  destruct (last_match cfg (e_plim e)) as [[i r]|]; [|contradiction].
+  apply sibling_rules_rule in H. destruct H as [H1 H2]. exists i. repeat split; assumption.
+Qed.
+
+(* a directory for which explain names no rule has no sibling requirement *)
+Lemma sibling_none_without_rule : forall cfg files e,
+  ex_matched (explain cfg (e_plim e)) = None -> sibling_entry cfg files e = [].
+Proof.
+  intros cfg files e H. cbn [explain ex_matched] in H. rewrite explain_index_last_match in H.
+  unfold sibling_entry. destruct (last_match cfg (e_plim e)) as [[i r]|]; [discriminate|reflexivity].
+Qed.
+
+(* and the consulted rule's entries are all applied: when rule i is the one explain names and it is the i-th
+   declared rule, the reports are exactly those of its own sibling entries *)
+Lemma sibling_rules_select : forall files e rs cols k n r,
+  (forall j, nth_error (map fst rs) j = Some k -> j = n) ->
+  nth_error rs n = Some (k, r) ->
+  sibling_rules files e rs cols k = sibling_rule files e k (sr_siblings r) (nth n cols []).
+Proof.
+  intros files e rs. induction rs as [|[i r0] rs IH]; intros cols k n r Hu Hn.
+  - destruct n; discriminate.
+  - cbn [sibling_rules]. destruct n as [|n].
+    + simpl in Hn. injection Hn as -> ->. rewrite Z.eqb_refl.
+      assert (T : sibling_rules files e rs (tl cols) k = []).
+      { clear IH. assert (Hno : forall j, nth_error (map fst rs) j <> Some k).
+        { intros j Hj. specialize (Hu (S j)). simpl in Hu. specialize (Hu Hj). discriminate. }
+        clear Hu. generalize (tl cols). induction rs as [|[i2 r2] rs IH2]; intro cs; cbn [sibling_rules]. reflexivity.
+        destruct (Z.eqb i2 k) eqn:E.
+        - apply Z.eqb_eq in E. subst i2. exfalso. apply (Hno 0%nat). reflexivity.
+        - simpl. apply IH2. intros j Hj. apply (Hno (S j)). exact Hj. }
+      rewrite T, app_nil_r. destruct cols; reflexivity.
+    + simpl in Hn. destruct (Z.eqb i k) eqn:E.
+      * apply Z.eqb_eq in E. subst i. specialize (Hu 0%nat). simpl in Hu. specialize (Hu eq_refl). discriminate.
+      * simpl. rewrite (IH (tl cols) k n r).
+        -- destruct cols; [destruct n; reflexivity | reflexivity].
+        -- intros j Hj. specialize (Hu (S j)). simpl in Hu. specialize (Hu Hj). injection Hu as ->. reflexivity.
+        -- exact Hn.
+Qed.
